@@ -149,6 +149,14 @@ JacobiOf(P, p) ==
           Ml(2, Ad(Dv(m1, P.r1, p), Dv(P.mu, P.r2, p), p), p), p),
        Ad(Ad(Ml(P.vx, P.vx, p), Ml(P.vy, P.vy, p), p), Ml(P.vz, P.vz, p), p), p)
 
+\* The documented split of the energy (common/energy.py: kinetic_energy, gravitational_potential,
+\* effective_potential):  T = v^2/2,  U_grav = -(1-mu)/r1 - mu/r2 - mu(1-mu)/2,  U_eff = -(x^2+y^2)/2 + U_grav
+KineticOf(P, p) == Ml(Half(p), Ad(Ad(Ml(P.vx, P.vx, p), Ml(P.vy, P.vy, p), p), Ml(P.vz, P.vz, p), p), p)
+GravOf(P, p) ==
+    LET m1 == Sb(1, P.mu, p) IN
+    Sb(Sb(Neg(Dv(m1, P.r1, p), p), Dv(P.mu, P.r2, p), p), Ml(Half(p), Ml(P.mu, m1, p), p), p)
+UeffOf(P, p) == Ad(Neg(Ml(Half(p), Ad(Ml(P.x, P.x, p), Ml(P.y, P.y, p), p), p), p), GravOf(P, p), p)
+
 (* ------------------------------ checking ------------------------------- *)
 VARIABLES w, done
 vars == <<w, done>>
@@ -186,6 +194,11 @@ JacobiIsMinusTwoEnergy ==
     \A p \in Primes : Usable(p) =>
         LET P == Pt(w, p) IN
         JacobiOf(P, p) = Sb(Neg(Ml(2, EnergyOf(P, p), p), p), Ml(P.mu, Sb(1, P.mu, p), p), p)
+
+\* "the energy reported for a state": the documented decomposition T + U_eff IS the first integral checked above
+EnergyDecomposition ==
+    \A p \in Primes : Usable(p) =>
+        LET P == Pt(w, p) IN Ad(KineticOf(P, p), UeffOf(P, p), p) = EnergyOf(P, p)
 
 \* the Jacobian's potential block is symmetric and (for the gravitational part) the field is
 \* a gradient: trace-free Hessian of the Newtonian potential, i.e. oxx + oyy + ozz = 2
